@@ -632,15 +632,23 @@ theorem run_ok : ∀ (ops : List Op) {w : World}, Inv w →
 
 /-! ### `RunMessageHandlers` in a well-formed world -/
 
+theorem specPgn_view (w : World) (i : Id) : specPgn (view w) i = pgnOf w i := by
+  unfold specPgn pgnOf; rw [view_h]; cases w.obj i <;> rfl
+
 theorem dispatch_ok {w : World} (hi : Inv w) (b : BusId) (P : Nat) :
     ∃ l, dispatch w b P = some (if w.cb b then 1 else 0, l) ∧ l.Nodup ∧
-      ∀ i, i ∈ l ↔ (view w).matching b P i := by
+      (∀ i, i ∈ l ↔ (view w).matching b P i) ∧
+      l.Pairwise (fun i j => specPgn (view w) i ≤ specPgn (view w) j) := by
   obtain ⟨lb, hb⟩ := hi.bus b
   have hfuel := chain_fuel hi hb
   obtain ⟨r, l', h0, h1, he⟩ := loops_spec (P := P) lb (w.head b) (w.bound + 1) (w.bound + 1) hb.chain
     (by omega) (by omega) hb.sorted
-  refine ⟨r.1 ++ l', by simp [dispatch, h0, h1], ?_, ?_⟩
+  refine ⟨r.1 ++ l', by simp [dispatch, h0, h1], ?_, ?_, ?_⟩
   · rw [he]; exact hb.nodup.sublist List.filter_sublist
+  rotate_left
+  · rw [he]
+    simp only [specPgn_view]
+    exact hb.sorted.sublist List.filter_sublist
   · intro i
     rw [he, List.mem_filter, hb.mem i]
     unfold SpecSt.matching
